@@ -48,14 +48,14 @@ BOUNDS = {
     "quick": {
         "res": "all subsets of <=2 of the 8 binding sites x {plain, builtin} name x 15 read sites x styles {value, or-default, call} x strict on/off; "
                "+ re-assignment variant for every subset holding a body assignment",
-        "stmt": "41 statement forms x placement {body, top-level def} x context {r, r+b, neither} x strict on/off",
-        "reserved": "4 names x 6 entry points x 3 enable_loop configurations; 4 names x 12 assignment forms x 3 scopes x 3 configurations",
+        "stmt": "%d statement forms x placement {body, top-level def} x context {r, r+b, neither} x strict on/off" % 49,
+        "reserved": "4 names x 6 entry points x 3 enable_loop configurations; 4 names x 15 assignment forms x 3 scopes x 3 configurations",
         "kwargs": "10 positions x 4 entry points x 3 argument sets",
     },
     "thorough": {
-        "res": "all subsets of <=4 of the 8 binding sites x {plain, builtin} x 15 read sites x 3 styles x strict on/off x binding statement "
+        "res": "all 256 subsets of the 8 binding sites x {plain, builtin} x 15 read sites x 3 styles x strict on/off x binding statement "
                "{before, after} the read for body/enclosing assignments x re-assignment variant",
-        "stmt": "41 statement forms x placement {body, top-level def, nested def, anonymous block, call body} x context {r, r+b, neither} x strict on/off",
+        "stmt": "%d statement forms x placement {body, top-level def, nested def, anonymous block, call body} x context {r, r+b, neither} x strict on/off" % 49,
         "reserved": "as quick + 5 scopes",
         "kwargs": "as quick",
     },
@@ -86,11 +86,17 @@ ASSUMPTIONS = [
     "the reference interpreter implements the order given in the statement (DESIGN Appendix A2); CPython exec, symtable and str are trusted",
     "a def reached through self. and a named block see the plain render context (documented), only defs called by bare name from the body see the overlay",
     "test names never collide with def names, default-filter names or the names self/local/parent/next/caller/capture/pageargs",
-    "hash order fixed (PYTHONHASHSEED=0); one render of each entry point per compiled template",
-    "a def/page/block parameter spelled like a reserved name is not an assignment in the statement's sense: not generated (DONT_CARE)",
-    "under strict_undefined only the class NameError and the quoted variable name are demanded, not the point in the callable where it is raised",
+    "hash order fixed (PYTHONHASHSEED=0); one render per entry point per compiled template",
+    "DONT_CARE: a def/page/block parameter spelled like a reserved name is not an assignment in the statement's sense: not generated",
+    "DONT_CARE: under strict_undefined only the class NameError and the quoted variable name are demanded, not the place in the callable "
+    "(or enclosing callable) where it is raised; when several names of one callable are unresolvable any of them may be named",
+    "DONT_CARE: passing loop to a render entry point of a template constructed with enable_loop=False whose <%page> tag re-enables the loop "
+    "context (documentation: 'it's safe to pass the name loop to render' with enable_loop=False; mako's own tests do it)",
+    "DONT_CARE (not generated): a def called by its bare name from another def; a body-level loop target that is also assigned in a <% %> block "
+    "while a def called by name reads it; value-style reads of an imported def (its text form holds addresses); filters that return non-strings",
+    "the dict given to render(**d) cannot be reached by the library (keyword call), so 'caller's data unchanged' is checked on a caller-owned "
+    "Context passed to render_context (data, kwargs, key set) and through a plain-context witness read at the end of every program",
 ]
-
 
 # --------------------------------------------------------------------------
 # data alphabet (the only thing VERIF_SEED changes)
@@ -276,7 +282,7 @@ def build_res(al, p):
 
 def res_params(tier):
     """the enumeration, simplest first"""
-    maxk = 2 if tier == "quick" else 4
+    maxk = 2 if tier == "quick" else len(BINDS)
     for k in range(0, maxk + 1):
         for binds in itertools.combinations(BINDS, k):
             for builtin in (False, True):
@@ -416,23 +422,31 @@ def stmt_params(tier):
 # running a program on mako
 
 
-def run_mako(texts, main, ctx, strict, entry="render_unicode", extra=None):
-    """-> (("out", text) | ("exc", class, message), post) ; post = observations on a caller-owned Context (render_context only)"""
+def run_mako(texts, main, ctx, strict, extra=None):
+    """compile once, render through render_unicode and through render_context with a caller-owned Context.
+    -> (obs_unicode, obs_context, post); obs = ("out", text) | ("exc", class, message);
+    post = observations on the caller-owned Context after render_context"""
     from mako.lookup import TemplateLookup
     from mako.runtime import Context
     from mako import util
 
-    post = None
     try:
         lk = TemplateLookup(strict_undefined=strict, **(extra or {}))
         for u, s in texts.items():
             lk.put_string(u, s)
         t = lk.get_template(main)
-        if entry == "render_unicode":
-            return ("out", t.render_unicode(**ctx)), None
+    except Exception as e:  # noqa
+        o = ("exc", type(e).__name__, str(e))
+        return o, o, None
+    try:
+        obs1 = ("out", t.render_unicode(**ctx))
+    except Exception as e:  # noqa
+        obs1 = ("exc", type(e).__name__, str(e))
+    post = None
+    try:
         buf = util.FastEncodingBuffer()
         c = Context(buf, **ctx)
-        before = sorted(k for k in c.keys())
+        before = sorted(c.keys())
         try:
             t.render_context(c, **ctx)
         finally:
@@ -442,9 +456,10 @@ def run_mako(texts, main, ctx, strict, entry="render_unicode", extra=None):
                 "data_equal": all(c.get(k, sentinel) is v for k, v in ctx.items()),
                 "no_new_keys": sorted(k for k in c.keys() if k not in ("self", "local", "parent", "next")) == before,
             }
-        return ("out", buf.getvalue()), post
+        obs2 = ("out", buf.getvalue())
     except Exception as e:  # noqa
-        return ("exc", type(e).__name__, str(e)), post
+        obs2 = ("exc", type(e).__name__, str(e))
+    return obs1, obs2, post
 
 
 def agrees(exp, obs, strict):
@@ -489,13 +504,24 @@ def _stmt_symptom(al, p, exp, obs):
         b = "os" if p["form"] in ("import", "import.dotted") else al.name
         if q and q[0] == b:
             role = "bound-name"
-        elif q and q[0] in (al.name2, al.name2 + "base"):
+        elif q and q[0] in (al.name2, al.name2 + "base", "ident"):
             role = "read-name"
         elif q and q[0] in ("p", "q", "va", "k", "kw"):
             role = "parameter"
+        elif q and q[0] in ("zq", "zp"):
+            role = "bound-name"
         else:
             role = "other"
         return "NameError(%s)" % role
+    if exp[0] == "out" and obs[0] == "out":
+        # which observation differs: [read after the block] (use) {def called by its bare name} <plain context>
+        import re
+
+        parts = []
+        for label, pat in (("read", r"\[(.*?)\]"), ("use", r"\((.*?)\)"), ("def-by-name-view", r"\{(.*?)\}"), ("plain-context", r"<(.*?)>")):
+            if re.findall(pat, exp[1], re.S) != re.findall(pat, obs[1], re.S):
+                parts.append(label)
+        return "differs:" + ("+".join(parts) or "other")
     return "exp=%s:obs=%s" % (_winner(al, exp), _winner(al, obs))
 
 
@@ -508,10 +534,13 @@ def check_program(al, fam, p, strict, st):
     texts = ir.print_program(prog)
     key = (json.dumps(texts, sort_keys=True), json.dumps(sorted(ctxspec.items())), strict)
     ctx = env.build_ctx(ctxspec)
-    exp = ref.run(prog, ctx, strict)
+    exp = ref.run(prog, dict(ctx), strict)
     st.oracles["reference"] += 1
-    obs, _ = run_mako(texts, prog["main"], ctx, strict, "render_unicode")
-    obs2, post = run_mako(texts, prog["main"], ctx, strict, "render_context")
+    given = dict(ctx)
+    obs, obs2, post = run_mako(texts, prog["main"], ctx, strict)
+    st.oracles["caller-dict-unchanged"] += 1
+    if list(ctx) != list(given) or any(ctx[k] is not given[k] for k in given):
+        st.violation("caller-dict-changed", {"fam": fam, "p": p, "strict": strict, "seed": al.seed}, "the dict given to render is unchanged", expected=sorted(given), observed=sorted(ctx))
     st.evaluations += 2
     st.transitions += 2
     st.traces += 1
@@ -623,6 +652,12 @@ def run_reserved(c):
     tk, pattrs = _loop_kwargs(c["cfg"])
     n = c["name"]
     must = not (n == "loop" and c["cfg"] == "off")
+    if n == "loop" and c["cfg"] == "off+page-on" and c["kind"] == "entry":
+        # documented (runtime.rst, "Migrating Legacy Templates that Use the Word loop"): with enable_loop=False on the
+        # Template/TemplateLookup "it's safe to pass the name loop to the Template.render method"; a template that turns
+        # the loop context back on in its <%page> tag is rendered by the same callers.  The statement ("loop while
+        # enabled") and the documentation disagree here: DONT_CARE.
+        must = None
     try:
         if c["kind"] == "assign":
             src = build_reserved_assign(c)
@@ -664,7 +699,10 @@ def check_reserved(c, st):
     st.transitions += 1
     st.traces += 1
     st.oracles["reserved-name"] += 1
-    st.outcomes[("reserved", c["kind"], "must" if must else "free", obs[0])] += 1
+    st.outcomes[("reserved", c["kind"], {True: "must", False: "free", None: "dontcare"}[must], obs[0])] += 1
+    if must is None:
+        st.extra["dontcare_reserved_entry_loop_reenabled_by_page"] = st.extra.get("dontcare_reserved_entry_loop_reenabled_by_page", 0) + 1
+        return
     case = {"fam": "reserved", "c": c, "template": src}
     what = c.get("entry") or ("%s@%s" % (c["form"], c["scope"]))
     if must:
@@ -873,50 +911,52 @@ def replay(case):
 
 
 def corpus(limit=400):
-    """<= limit representative programs of the smallest non-trivial bound (<=1 binding site, then 2), simplest first,
-    spread over all read sites, styles and binding sites.  Deterministic."""
+    """<= limit representative programs of the smallest non-trivial bound (<=2 simultaneous binding sites), simplest
+    first (no binding, one, two), spread over all binding sites, read sites, read styles, plain/builtin names and both
+    strict_undefined settings.  Deterministic.  Each item: {"files": {uri: text}, "main": uri, "ctx": {name: json |
+    "@helper:<name in mc/c04_env.py>"}, "expected": render_unicode() output | None, "template_kwargs": {...}}."""
     al = Alpha(0)
-    buckets = {}
-    order = []
+    groups = {}
     for p in res_params("quick"):
         if p["twice"]:
             continue
-        k = (len(p["binds"]) + (1 if p["builtin"] else 0), p["site"])
-        if k not in buckets:
-            buckets[k] = []
-            order.append(k)
-        buckets[k].append(p)
-    order.sort(key=lambda k: (k[0], SITES.index(k[1])))
+        groups.setdefault((len(p["binds"]), tuple(p["binds"])), []).append(p)
+    quota = {0: max(1, limit // 10), 1: (limit * 4) // 10}
     out = []
     seen = set()
-    # round-robin over (size, site) buckets of the same size, so every construct kind appears early
-    for size in sorted({k[0] for k in order}):
-        ks = [k for k in order if k[0] == size]
-        idx = 0
-        while any(buckets[k] for k in ks):
-            for k in ks:
-                if not buckets[k]:
-                    continue
-                p = buckets[k].pop(0)
-                for strict in ((False, True) if idx % 3 == 0 else (False,)):
-                    prog, ctxspec = build_res(al, p)
-                    prog = ir.normalize(prog)
-                    texts = ir.print_program(prog)
-                    key = (json.dumps(texts, sort_keys=True), json.dumps(sorted(ctxspec.items())), strict)
-                    if key in seen:
-                        continue
-                    seen.add(key)
-                    exp = ref.run(prog, env.build_ctx(ctxspec), strict)
-                    out.append(
-                        {
-                            "files": texts,
-                            "main": prog["main"],
-                            "ctx": dict(ctxspec),
-                            "expected": exp[1] if exp[0] == "out" else None,
-                            "template_kwargs": {"strict_undefined": strict},
-                        }
-                    )
-                    if len(out) >= limit:
-                        return out
-                idx += 1
-    return out
+
+    def emit(p, strict, budget_end):
+        prog, ctxspec = build_res(al, p)
+        prog = ir.normalize(prog)
+        texts = ir.print_program(prog)
+        key = (json.dumps(texts, sort_keys=True), json.dumps(sorted(ctxspec.items())), strict)
+        if key in seen or len(out) >= budget_end:
+            return
+        exp = ref.run(prog, env.build_ctx(ctxspec), strict)
+        if exp[0] != "out" and len([o for o in out if o["expected"] is None]) * 8 >= max(8, len(out)):
+            return  # keep programs whose expected result is an exception to about one in eight
+        seen.add(key)
+        out.append(
+            {
+                "files": texts,
+                "main": prog["main"],
+                "ctx": dict(ctxspec),
+                "expected": exp[1] if exp[0] == "out" else None,
+                "template_kwargs": {"strict_undefined": strict},
+            }
+        )
+
+    for size in (0, 1, 2):
+        end = limit if size == 2 else min(limit, len(out) + quota[size])
+        gs = [groups[k] for k in sorted(groups) if k[0] == size]
+        # inside a group walk with a stride coprime to its length, so that consecutive picks differ in read site and style
+        strides = []
+        for g in gs:
+            strides.append([q for q in (7, 11, 13, 17, 1) if len(g) % q != 0 or q == 1][0])
+        step = 0
+        while len(out) < end and step < max(len(g) for g in gs):
+            for g, q in zip(gs, strides):
+                if step < len(g):
+                    emit(g[(step * q) % len(g)], step % 3 == 2, end)
+            step += 1
+    return out[:limit]
